@@ -110,6 +110,12 @@ fn child_body(engine: &mut Engine, case: &Value, chan: &mut std::fs::File, out_f
         }
         let mut failed = false;
         match res {
+            Ok(Ok(vals)) if case["no_vals"].as_bool().unwrap_or(false) => {
+                // values returned to the host are not GC roots: under forced collections they may
+                // legitimately be stale, so they are not inspected
+                drop(vals);
+                rec["ok"] = json!(true);
+            }
             Ok(Ok(vals)) => {
                 rec["ok"] = json!(true);
                 rec["vals"] = Value::Array(
